@@ -1,16 +1,16 @@
 ----------------------------- MODULE MC_TextIO -----------------------------
 (* Design check (layout arithmetic) and generator for C16 / C17.            *)
 EXTENDS TextIO, Json, IOUtils, SequencesExt, CSV
-CONSTANTS Mode, MaxN, FullTo, Batch, Stride, Offset
+CONSTANTS Mode, MinN, MaxN, FullTo, Batch, Stride, Offset
 
-NItems == IF Mode = "origin" THEN (MaxN + 1 + Batch - 1) \div Batch ELSE (MaxN + 1 + Batch - 1) \div Batch
+NItems == (MaxN - MinN + 1 + Batch - 1) \div Batch
 Picked == SelectSeq([j \in 1..NItems |-> j], LAMBDA j : j % Stride = Offset % Stride)
 Descs == <<"", "plain", "two words here", "with > inside", " leading and trailing ", "tab\there">>
 BatchJson(b) ==
-  LET lo == (b - 1) * Batch
+  LET lo == MinN + (b - 1) * Batch
       hiN == IF lo + Batch - 1 > MaxN THEN MaxN ELSE lo + Batch - 1
   IN IF Mode = "origin"
-     THEN [id |-> "or" \o ToString(b), fam |-> "origin", ns |-> [j \in 1..(hiN - lo + 1) |-> lo + j - 1], fullto |-> FullTo]
+     THEN [id |-> "or" \o ToString(MinN) \o "." \o ToString(b), fam |-> "origin", ns |-> [j \in 1..(hiN - lo + 1) |-> lo + j - 1], fullto |-> FullTo]
      ELSE [id |-> "fa" \o ToString(b), fam |-> "fasta", ns |-> [j \in 1..(hiN - lo + 1) |-> lo + j - 1], descs |-> Descs]
 
 VARIABLES lo, hi, done
